@@ -2,7 +2,7 @@
 # usage: testref.sh <script-or-diff>  : applies on a scratch copy, builds, vets, tests ./context
 export GOFLAGS=-mod=mod GOPROXY=off GOSUMDB=off GOTOOLCHAIN=local GOWORK=off
 P=$1
-D=$(mktemp -d /tmp/kcdev/C20/scratch/t.XXXXXX)
+D=$(mktemp -d /tmp/c20ref.XXXXXX)
 rsync -a --exclude .git /repo/ "$D/"
 case "$P" in
   *.sh) (cd "$D" && bash "$P") ;;
